@@ -47,7 +47,7 @@ PROPS = {
                 "containing a closing brace or a rule header). Second stream: bare when clauses (depth to 6, metacharacter strings in half of them, arbitrary blanks and redundant parentheses) through the hook "
                 "verif_parse_when_clause, compared with the Coq model of the condition-tree parser AND with the written tree. Observed per rule: name, salience, flags, groups, dates, condition tree, action list. "
                 "non-trivial = at least one rule Negated negations are generated and printed side by side (!!(..), ! !(..)) as well as parenthesised.",
-        "level_text": "The splitting layer below the regular expressions is modelled and proved (Model/GrlSplit.v): string literals in either quote character are opaque to the statement split of parse_then_clause, to split_arguments and to find_outside_strings, whatever they contain except their own quote; statements joined by ';' and arguments joined by ',' come back piece for piece; the slices around `=` / `+=` are on character boundaries for every statement. The rule-block and attribute braces are the first `}` / `{` outside literals (C04_rule_block_ends_at_the_written_brace, C04_attributes_end_at_the_written_brace) and a literal is opaque to the search for `then` (split_when_then is modelled too). The four functions are compared with the model on arbitrary texts through hooks (exact prediction). Theorems (Coq): the condition-tree parser recovers the written tree - for EVERY tree of comparisons joined by &&, || and !( ), any depth, any number of redundant parenthesis pairs, leaves being neutral texts "
+        "level_text": "The splitting layer below the regular expressions is modelled and proved (Model/GrlSplit.v): string literals in either quote character are opaque to the statement split of parse_then_clause, to split_arguments and to find_outside_strings, whatever they contain except their own quote; statements joined by ';' and arguments joined by ',' come back piece for piece; the slices around `=` / `+=` are on character boundaries for every statement. The rule-block and attribute braces are the first `}` / `{` outside literals (C04_rule_block_ends_at_the_written_brace, C04_attributes_end_at_the_written_brace) and a literal is opaque to the search for `then`; conditions the scan passes, then `then` between whitespace, then actions, split exactly at the written `then` (C04_split_at_the_written_then; split_when_then is modelled). The four functions are compared with the model on arbitrary texts through hooks (exact prediction). Theorems (Coq): the condition-tree parser recovers the written tree - for EVERY tree of comparisons joined by &&, || and !( ), any depth, any number of redundant parenthesis pairs, leaves being neutral texts "
                 "(proved for ordinary text optionally followed by a string literal with arbitrary content), parse_when (print tree) = tree: && binds tighter than ||, parentheses and ! respected. Lemmas for every text: string literals are opaque to the condition splitter (whatever stands between two equal quote characters never separates conditions, at any depth, for any continuation); "
                 "parentheses protect (a text that may split at its own top level does not split once parenthesised); a top-level && / || between two non-splitting texts separates exactly there into exactly the two trimmed "
                 "texts; such texts compose. The model of parse_when_clause / split_logical_operator / the single-comparison pattern is compared with the code on every generated clause; the Coq-defined expectation exp_rule "
